@@ -245,9 +245,19 @@ FUNCTION_NAMES = sorted(_FUNCS)
 
 def func(name, a):
     _no_big(a)
-    if a.kind == "complex":
-        raise OutOfDomain("function of a complex argument")
     f, d, dom = _FUNCS[name]
+    if a.kind == "complex":
+        # complex arguments well away from both axes (every branch cut of these functions lies on an axis) and of moderate size
+        z = a.as_mp()
+        m_ = max(mpf(1), abs(z))
+        if abs(z.imag) < mpf("0.02") * m_ or abs(z.real) < mpf("0.02") * m_ or abs(z) > 20:
+            raise OutOfDomain("complex function argument near an axis or large")
+        r = f(z)
+        _finite(r)
+        dm = abs(d(z))
+        if not mp.isfinite(dm) or dm > mpf("1e4") or abs(r) < mpf("1e-6"):
+            raise OutOfDomain("complex function argument near a singular point or zero")
+        return V("complex", mpc(r), 2 * dm * (a.err + _conv(a)) + 16 * _rnd(r))
     x = a.as_mp()
     ea = a.err + _conv(a)
     if not dom(x) or (ea and (not dom(x - 2 * ea) or not dom(x + 2 * ea))):
